@@ -57,16 +57,25 @@ ASSUMPTIONS_BY_ENGINE = {
 DETERMINISM_SCENARIOS = ["staletail", "general", "election", "lease", "durability", "lag", "snapshot", "membership", "deadline"]
 
 
-def B(name, scenario, quick, thorough, masks=None):
+# Scope mask (not a known finding): the properties quantify over crashes of a *minority* of voters
+# (C05, C10) - with this mask the cluster simulator enforces that strictly and restarts the sole
+# voter of a 1-voter cluster gracefully instead of crashing it (DESIGN.md §8.1, false alarm FA2).
+# Only the C02 batches (vote/term persistence of any single node) run without it.
+MASK_SCOPE = ["sole_voter_crash"]
+
+
+def B(name, scenario, quick, thorough, masks=None, sole_voter_crash=False):
+    m = list(MASK_OPEN if masks is None else masks)
     return {"name": name, "scenario": scenario, "quick": quick, "thorough": thorough,
-            "masks": MASK_OPEN if masks is None else masks}
+            "masks": m + ([] if sole_voter_crash else MASK_SCOPE)}
 
 
 PROPS = {
     "C01": {"batches": [B("election", "election", 140, 1400), B("general", "general", 100, 1000),
                         B("membership", "membership", 40, 400)]},
-    "C02": {"batches": [B("election", "election", 120, 1200), B("durability", "durability", 120, 1200),
-                        B("general", "general", 40, 400)]},
+    "C02": {"batches": [B("election", "election", 120, 1200, sole_voter_crash=True),
+                        B("durability", "durability", 120, 1200, sole_voter_crash=True),
+                        B("general", "general", 40, 400, sole_voter_crash=True)]},
     "C03": {"batches": [B("membership", "membership", 160, 1600), B("election", "election", 60, 600),
                         B("general", "general", 40, 400)]},
     "C04": {"batches": [B("general", "general", 120, 1200), B("lag", "lag", 80, 800),
